@@ -306,6 +306,42 @@ pub fn worker_main() {
                     tokio::time::sleep(std::time::Duration::from_millis(50)).await;
                     reply(json!({"ok": true}));
                 }
+                "http_start" => {
+                    let ctx2 = Arc::clone(&ctx);
+                    tokio::spawn(async move {
+                        let _ = snel_db::frontend::http::listener::run_http_server(ctx2).await;
+                    });
+                    tokio::time::sleep(std::time::Duration::from_millis(50)).await;
+                    reply(json!({"ok": true}));
+                }
+                // one conversation over the Unix-socket front end's connection type (in-memory pipe instead of a socket)
+                "unix_conn" => {
+                    use tokio::io::{AsyncReadExt, AsyncWriteExt};
+                    let lines: Vec<String> = req["lines"].as_array().map(|a| a.iter().filter_map(|v| v.as_str().map(|s| s.to_string())).collect()).unwrap_or_default();
+                    let (mut client_w, server_r) = tokio::io::duplex(1 << 20);
+                    let (server_w, mut client_r) = tokio::io::duplex(1 << 22);
+                    let mut conn = snel_db::frontend::unix::connection::Connection {
+                        pid: 0,
+                        reader: tokio::io::BufReader::new(server_r),
+                        writer: server_w,
+                        shard_manager: Arc::clone(&ctx.shard_manager),
+                        registry: Arc::clone(&ctx.registry),
+                        renderer: Arc::new(snel_db::shared::response::unix::UnixRenderer),
+                        auth_manager: ctx.auth_manager.clone(),
+                    };
+                    let h = tokio::spawn(async move {
+                        let _ = conn.run().await;
+                    });
+                    for l in &lines {
+                        let _ = client_w.write_all(l.as_bytes()).await;
+                        let _ = client_w.write_all(b"\n").await;
+                    }
+                    drop(client_w);
+                    let mut out = Vec::new();
+                    let _ = tokio::time::timeout(std::time::Duration::from_secs(20), client_r.read_to_end(&mut out)).await;
+                    let _ = h.await;
+                    reply(json!({"out": String::from_utf8_lossy(&out)}));
+                }
                 "internal" => {
                     let v = crate::internal::handle(&req, &ctx).await;
                     reply(v);
